@@ -16,6 +16,7 @@ var Groups = []Group{
 	{Name: "raw", Props: []string{"C22"}, Gen: GenRaw},
 	{Name: "recover", Props: []string{"C25", "C21", "C20", "C22"}, Gen: GenRecover},
 	{Name: "upgrade", Props: []string{"C25", "C21", "C20", "C22"}, Gen: GenUpgrade},
+	{Name: "verify", Props: []string{"C24"}, Gen: GenVerify},
 }
 
 // Viol is a property-level failure found by a monitor on the implementation.
